@@ -280,7 +280,7 @@ class AsyncConnectionPool(AsyncRequestInterface):
         closing_connections = []
 
         # First we handle cleaning up any connections that are closed,
-        # have expired their keep-alive, or surplus idle connections.
+        # or have expired their keep-alive.
         for connection in list(self._connections):
             if connection.is_closed():
                 # log: "removing closed connection"
@@ -289,7 +289,11 @@ class AsyncConnectionPool(AsyncRequestInterface):
                 # log: "closing expired connection"
                 self._connections.remove(connection)
                 closing_connections.append(connection)
-            elif (
+
+        # Then any surplus idle connections. Only the connections that remain
+        # are counted, so a stale idle connection never costs a healthy one.
+        for connection in list(self._connections):
+            if (
                 connection.is_idle()
                 and len([c for c in self._connections if c.is_idle()])
                 > self._max_keepalive_connections
